@@ -23,13 +23,16 @@
        And the add_mark plan reaches what it should (C13_add_mark_plan_covers, C13_add_mark_plan_removes_displaced): every
        overlapping inline descendant lacking the mark under an allowing parent lies, within the range, inside one planned
        AddMark step, and each mark add_to_set would displace has a planned RemoveMark step over the same part.
+       The remove_mark plan likewise covers every matched mark of every overlapping inline descendant
+       (C13_remove_mark_plan_covers; needs the walk's order and inline nodes without children).
    WHICH marks a whole operation leaves, set_block_type / set_node_markup are evaluated per case by Corr.C13 in Coq
    on the implementation's output. *)
-From Coq Require Import List Arith Bool NArith.
+From Coq Require Import List Arith Bool NArith Lia.
 From PM Require Import Model.Data Model.Mark Model.Tree Model.Resolve Model.Step Spec.Tokens
   Proofs.ReplaceValid Proofs.TokenBasics Proofs.ReplaceTokens Proofs.SliceShape Proofs.TokenLaws
   Proofs.NodeSteps Proofs.MarkSteps Proofs.MarkPointwise Proofs.Retype Model.MarkOps Proofs.MarkOpsProofs
-  Proofs.DataProofs Proofs.StepSafe Proofs.Traversal Proofs.AddMarkCovers.
+  Proofs.DataProofs Proofs.StepSafe Proofs.Traversal Proofs.AddMarkCovers Proofs.RemoveMarkCovers
+  Proofs.ReplaceValid Proofs.SliceSides Proofs.ReplaceSuccess Proofs.MarkStepSuccess.
 Import ListNotations.
 Local Open Scope nat_scope.
 
@@ -175,6 +178,96 @@ Proof.
   eapply (Sub_in _ _ Properties.C01.ex_doc 1); [|reflexivity].
   change 4 with (frag_size Properties.C01.ex_schema (firstn 1 (node_content Properties.C01.ex_doc))).
   apply Sub_top. reflexivity.
+Qed.
+
+(* The remove_mark plan likewise: every inline descendant overlapping [from, to) and every mark of it the selector matches
+   ([rm_to_remove]: the given mark if present / every mark of the given type / all marks) has its part of the range inside ONE
+   planned RemoveMark step of an equal mark.  The planner extends the entry it touched at the PREVIOUS inline node, so this
+   rests on the order of the walk (document order, Proofs/RemoveMarkCovers.v) and on inline nodes having no children
+   ([flat_inline]: true wherever inline content is text and leaf nodes - every bundled schema; a decidable check on the
+   document); text nodes are non-empty and leaf-typed nodes childless ([wfw], [leaves_empty]). *)
+Theorem C13_remove_mark_plan_covers : forall s doc from to sel sts,
+  wfw s doc -> leaves_empty s doc -> to <= frag_size s (node_content doc) ->
+  flat_inline s (all_visits s doc 0) ->
+  plan_remove_mark s doc from to sel = Ok sts ->
+  forall p i c q, Sub s doc p i c q -> q < to -> from < q + node_size s c -> 0 < node_size s c ->
+    node_is_inline s c = true ->
+    forall x, In x (rm_to_remove sel (node_marks c)) ->
+      exists f t m0, In (SRemoveMark f t m0) sts /\ mark_eqb m0 x = true /\
+                     f <= Nat.max q from /\ Nat.min (q + node_size s c) to <= t.
+Proof. exact plan_remove_mark_covers. Qed.
+Print Assumptions C13_remove_mark_plan_covers.
+
+(* the example document with em on "cd": remove_mark(5, 9, em) plans the one step over 6..8, and the hypotheses hold *)
+Example C13_remove_mark_plan_covers_example :
+  let s := Properties.C01.ex_schema in let em := {| m_ty := 0%nat; m_attrs := [] |} in
+  let doc := Elem 0%nat [] [] [Properties.C01.ex_p [97%N; 98%N];
+               Elem 2%nat [] [] [Elem 1%nat [] [] [Text [99%N; 100%N] [em]]; Properties.C01.ex_p [101%N; 102%N]]] in
+  check s doc = true /\ wfw s doc /\ leaves_empty s doc /\ flat_inline s (all_visits s doc 0) /\
+  plan_remove_mark s doc 5 9 (RMark em) = Ok [SRemoveMark 6 8 em] /\
+  rm_to_remove (RMark em) [em] = [em].
+Proof.
+  cbv zeta. split; [vm_compute; reflexivity|]. split; [cbn; repeat split; auto; try discriminate; try lia|].
+  split; [apply leaves_empty_b_spec; vm_compute; reflexivity|].
+  split; [|split; vm_compute; reflexivity].
+  intros v Hv Hi. vm_compute in Hv.
+  repeat (destruct Hv as [<-|Hv]; [try reflexivity; vm_compute in Hi; discriminate|]). destruct Hv.
+Qed.
+
+(* WHEN a mark step applies (success direction), for a range that lies inside one parent node and cuts no node - Node.slice of
+   it is closed: the step applies exactly when the parent's children, with the re-marked ones in place and equal-marked text
+   merged, are valid content for the parent's type; otherwise it FAILS (a failed result) and never raises.  (With a content
+   expression that counts inline children the merge can make the content invalid: known finding C01-mark-step-merges-counted-text.)
+   Also the answer to "the merged step succeeds" of C16 for such ranges: it is decided by the same content check. *)
+Theorem C13_flat_add_mark_step_applies_iff_valid : forall s doc from to m old rf rt parent a b sd par,
+  is_elem doc -> from <= to ->
+  node_slice s doc from to = Ok old -> sl_open_start old = 0 -> sl_open_end old = 0 -> frag_size s (sl_content old) <> 0 ->
+  resolve s doc from = Ok rf -> resolve s doc to = Ok rt ->
+  rp_depth rf = rp_depth rt -> (forall d, d < rp_depth rf -> rp_index rf d = rp_index rt d) ->
+  rp_parent rf = Ok parent ->
+  frag_cut s (node_content parent) 0 (rp_parent_offset rf) = Ok a ->
+  frag_cut s (node_content parent) (rp_parent_offset rt) (frag_size s (node_content parent)) = Ok b ->
+  shared_depth s rf to = Ok sd -> rp_node rf sd = Ok par ->
+  let marked := map_fragment s (add_mark_f s m) par (sl_content old) in
+  if valid_content s (node_ty s parent) (frag_append (frag_append a marked) b)
+  then exists d', apply s (SAddMark from to m) doc = ROk d'
+  else apply s (SAddMark from to m) doc = RFail.
+Proof. exact flat_add_mark_step_applies_iff. Qed.
+Print Assumptions C13_flat_add_mark_step_applies_iff_valid.
+
+Theorem C13_flat_remove_mark_step_applies_iff_valid : forall s doc from to m old rf rt parent a b,
+  is_elem doc -> from <= to ->
+  node_slice s doc from to = Ok old -> sl_open_start old = 0 -> sl_open_end old = 0 -> frag_size s (sl_content old) <> 0 ->
+  resolve s doc from = Ok rf -> resolve s doc to = Ok rt ->
+  rp_depth rf = rp_depth rt -> (forall d, d < rp_depth rf -> rp_index rf d = rp_index rt d) ->
+  rp_parent rf = Ok parent ->
+  frag_cut s (node_content parent) 0 (rp_parent_offset rf) = Ok a ->
+  frag_cut s (node_content parent) (rp_parent_offset rt) (frag_size s (node_content parent)) = Ok b ->
+  let marked := map_fragment s (remove_mark_f m) doc (sl_content old) in
+  if valid_content s (node_ty s parent) (frag_append (frag_append a marked) b)
+  then exists d', apply s (SRemoveMark from to m) doc = ROk d'
+  else apply s (SRemoveMark from to m) doc = RFail.
+Proof. exact flat_remove_mark_step_applies_iff. Qed.
+Print Assumptions C13_flat_remove_mark_step_applies_iff_valid.
+
+(* the hypotheses are met by the em step over "cd" (6..8) of the example document *)
+Example C13_flat_add_mark_step_example :
+  let s := Properties.C01.ex_schema in let doc := Properties.C01.ex_doc in let em := {| m_ty := 0%nat; m_attrs := [] |} in
+  exists old rf rt parent a b sd par,
+    node_slice s doc 6 8 = Ok old /\ sl_open_start old = 0 /\ sl_open_end old = 0 /\ frag_size s (sl_content old) <> 0 /\
+    resolve s doc 6 = Ok rf /\ resolve s doc 8 = Ok rt /\ rp_depth rf = rp_depth rt /\
+    (forall d, d < rp_depth rf -> rp_index rf d = rp_index rt d) /\ rp_parent rf = Ok parent /\
+    frag_cut s (node_content parent) 0 (rp_parent_offset rf) = Ok a /\
+    frag_cut s (node_content parent) (rp_parent_offset rt) (frag_size s (node_content parent)) = Ok b /\
+    shared_depth s rf 8 = Ok sd /\ rp_node rf sd = Ok par /\
+    valid_content s (node_ty s parent) (frag_append (frag_append a (map_fragment s (add_mark_f s em) par (sl_content old))) b) = true.
+Proof.
+  cbv zeta. do 8 eexists.
+  split; [vm_compute; reflexivity|]. split; [reflexivity|]. split; [reflexivity|]. split; [vm_compute; discriminate|].
+  split; [vm_compute; reflexivity|]. split; [vm_compute; reflexivity|]. split; [reflexivity|].
+  split; [intros d Hd; cbn in Hd; destruct d as [|[|d]]; [reflexivity|reflexivity|exfalso; lia]|].
+  split; [vm_compute; reflexivity|]. split; [vm_compute; reflexivity|]. split; [vm_compute; reflexivity|].
+  split; [vm_compute; reflexivity|]. split; [vm_compute; reflexivity|]. vm_compute. reflexivity.
 Qed.
 
 (* ... and WHAT it does to the marks, token by token: token i of the result is token i of the starting document re-marked,
